@@ -54,6 +54,20 @@ def make_stream (side, seed, big):
   n = rng.randrange(1, 13)
   msgs = []
   pl = (0, 0, 1, 3, 8, 20) if not big else (0, 8, 100, 700, 1400, 1500)
+  if big == "huge":
+    # one message at (or near) the largest expressible length between
+    # ordinary ones: the receive buffer holds almost 64 KiB of an incomplete
+    # message plus whatever the next read brings
+    L = rng.choice([63488, 63489, 65528, 65534, 65535])
+    msgs = []
+    for _ in range(rng.randrange(0, 3)):
+      msgs.append(ofgen.gen_message(rng, "echo_request", payload_lens=(0, 3, 20)).pack())
+    msgs.append(struct.pack("!BBHL", 1, 2, L, rng.getrandbits(32)) +
+                bytes((i * 5 + 1) & 0xff for i in range(L - 8)))
+    for _ in range(rng.randrange(1, 4)):
+      msgs.append(ofgen.gen_message(rng, "echo_request", payload_lens=(0, 3, 20)).pack())
+    _cache[key] = msgs
+    return msgs
   if big == "many":
     # many short messages, so that a single read completes dozens of them
     n = rng.choice([13, 16, 17, 31, 32, 33, 64, 65, rng.randrange(13, 200)])
@@ -313,7 +327,7 @@ def gen_cases (spec):
   for si in range(spec["streams"]):
     side = ("ctl", "sw")[si % 2]
     seed = "%d/%d/%d/%s" % (spec["seed"], spec["sub"], si, mode)
-    big = "many" if mode == "many" else mode in ("big",)
+    big = mode if mode in ("many", "huge") else mode in ("big",)
     msgs = make_stream(side, seed, big)
     L = sum(len(m) for m in msgs)
     bounds = [0]
@@ -328,6 +342,14 @@ def gen_cases (spec):
       for a in range(1, L):
         for b in range(a + 1, L):
           yield dict(base, cuts=[a, b])
+    elif mode == "huge":
+      yield dict(base, cuts=[])
+      for step in (2048, 8192, 2047, 4096):
+        yield dict(base, cuts=list(range(step, L, step)))
+      for d in (-1, 0, 1, 7, 8):
+        yield dict(base, cuts=[b + d for b in bounds[1:-1]])
+      for _ in range(spec.get("rand", 4)):
+        yield dict(base, cuts=sorted(rng.randrange(1, L) for _ in range(rng.randrange(1, 40))))
     elif mode == "many":
       yield dict(base, cuts=[])                        # one giant segment
       yield dict(base, cuts=[bounds[len(bounds) // 2]])
@@ -368,6 +390,7 @@ def plan (tier, seed):
     sp += [dict(mode="big", streams=30, sub=i, rand=10) for i in range(3)]
     sp += [dict(mode="many", streams=40, sub=i, rand=6) for i in range(2)]
     sp += [dict(mode="hs", streams=150, sub=i, rand=6) for i in range(2)]
+    sp += [dict(mode="huge", streams=6, sub=i, rand=3) for i in range(2)]
     return sp
   sp = [dict(mode="cut1", streams=150, sub=i) for i in range(16)]
   sp += [dict(mode="cut2", streams=400, sub=i, maxlen=140) for i in range(16)]
@@ -375,6 +398,7 @@ def plan (tier, seed):
   sp += [dict(mode="big", streams=500, sub=i, rand=40) for i in range(8)]
   sp += [dict(mode="many", streams=1500, sub=i, rand=20) for i in range(8)]
   sp += [dict(mode="hs", streams=6000, sub=i, rand=12) for i in range(8)]
+  sp += [dict(mode="huge", streams=150, sub=i, rand=10) for i in range(8)]
   return sp
 
 
